@@ -7,8 +7,8 @@
    fac dt tau = 1/(1+dt/tau) is the integration factor; nds E = |dev E|^2; Etrial lss H Fv is the trial logarithmic strain. *)
 From Coq Require Import Reals List.
 From OV.base Require Import Num.
-From OV.model Require Import M_C08 M_C11.
-From OV.proofs Require Import L_C08 L_C11a L_C11.
+From OV.model Require Import M_C08 M_C11 M_C11s.
+From OV.proofs Require Import L_C08 L_C11a L_C11 L_C11s L_C11t.
 Import ListNotations.
 Local Open Scope R_scope.
 
@@ -41,6 +41,27 @@ Theorem C11_isochoric_three_branch : forall (lss expm : M -> M) (p : @p8 R), (fo
   (forall A : M, mdet (expm A) = exp (mtrace A)) ->
   forall (n : nat) (Fv : M) (dt : R) (H : M), 0 < dt -> mdet (state_new_b n lss expm p Fv dt H) = mdet Fv.
 Proof. exact state_new_b_det. Qed.
+
+(* ---- the same WITHOUT a hypothesis on the exponential (round 3): expm_spec eigh A = V diag(exp lam) V^T with (lam, V) = eigh A, as
+        TensorMath.symmetric_matrix_function builds it; jax.scipy.linalg.expm is tied to it by the correspondence stream `spectral`.
+        The only premise left is the contract of the eigen-solver AT the increment it is called on (eigh_ok: V^T V = V V^T = I and
+        V diag(lam) V^T = A), which the harness evaluates on every oracle value.  det(exp A) = exp(tr A) is now a theorem. *)
+Theorem C11_spectral_exponential_det : forall (eigh : M -> E3) (A : M), eigh_ok eigh A -> mdet (expm_spec eigh A) = exp (mtrace A).
+Proof. exact expm_spec_det. Qed.
+Theorem C11_isochoric_spectral : forall (lss : M -> M) (eigh : M -> E3) (K G Gn tau : R) (Fv : M) (dt : R) (H : M), 0 < tau -> 0 < dt ->
+  eigh_ok eigh (inc_hv (K, G, Gn, tau) dt (Etrial lss H Fv)) ->
+  mdet (state_new_hv lss (expm_spec eigh) (K, G, Gn, tau) Fv dt H) = mdet Fv.
+Proof. exact state_new_hv_det_spec. Qed.
+Theorem C11_isochoric_spectral_three_branch : forall (n : nat) (lss : M -> M) (eigh : M -> E3) (p : @p8 R) (Fv : M) (dt : R) (H : M),
+  0 < taub n p -> 0 < dt -> eigh_ok eigh (inc_b n p dt (Etrial_mb lss H Fv)) ->
+  mdet (state_new_b n lss (expm_spec eigh) p Fv dt H) = mdet Fv.
+Proof. exact state_new_b_det_spec. Qed.
+(* with the spectral log_sqrt_symm the increment is symmetric whatever its eigen-solver returns, so the contract of the exponential's
+   eigen-solver on symmetric matrices (the spectral theorem: satisfiable, not proved here) is all that is needed *)
+Theorem C11_isochoric_spectral_all : forall (eighL eighE : M -> E3) (K G Gn tau : R), (forall A, msym A -> eigh_ok eighE A) ->
+  forall (Fv : M) (dt : R) (H : M), 0 < tau -> 0 < dt ->
+  mdet (state_new_hv (lss_spec eighL) (expm_spec eighE) (K, G, Gn, tau) Fv dt H) = mdet Fv.
+Proof. exact state_new_hv_det_spec_all. Qed.
 
 (* ---- energy in closed form: equilibrium energy + sum over branches of G |dev E_trial|^2 / (1 + dt/tau) *)
 Theorem C11_energy_closed_form : forall (lss : M -> M) (K G Gn tau : R), 0 < tau ->
@@ -80,6 +101,67 @@ Theorem C11_relaxation_step_three_branch : forall (lss expm : M -> M) (p : @p8 R
   /\ Wneq_reported_b n lss p (state_new_b n lss expm p Fv dt H) dt' H <= Wneq_reported_b n lss p Fv dt H.
 Proof. exact relaxation_step_b. Qed.
 
+(* ---- round 3: ARBITRARY step sequences at held deformation, every branch of the three-branch model and their sum.
+        reported_b n ... Fv dts lists the stored energy of branch n after each of the steps dts (its own viscous distortion updated by
+        state_new_b after every step); reported_total lists the sum over the three branches, which is exactly what the model reports as
+        energy density - dissipated energy - equilibrium energy (theorems C11_reported_energy and C11_reported_energy_three_branch). *)
+Theorem C11_relaxation_monotone_three_branch : forall (lss expm : M -> M) (p : @p8 R),
+  (forall n, 0 < taub n p) -> (forall n, 0 <= Gb n p) -> forall H : M,
+  (forall (n : nat) (Fv : M) (dt : R), 0 < dt ->
+     Etrial_mb lss H (state_new_b n lss expm p Fv dt H) = relax_b n p dt (Etrial_mb lss H Fv)) ->
+  forall (n : nat) (dts : list R), Forall (fun dt => 0 < dt) dts -> forall Fv : M, nonincreasing (reported_b lss expm p H n Fv dts).
+Proof. exact relaxation_monotone_b. Qed.
+Theorem C11_relaxation_monotone_total : forall (lss expm : M -> M) (p : @p8 R),
+  (forall n, 0 < taub n p) -> (forall n, 0 <= Gb n p) -> forall H : M,
+  (forall (n : nat) (Fv : M) (dt : R), 0 < dt ->
+     Etrial_mb lss H (state_new_b n lss expm p Fv dt H) = relax_b n p dt (Etrial_mb lss H Fv)) ->
+  forall dts : list R, Forall (fun dt => 0 < dt) dts -> forall Fv1 Fv2 Fv3 : M, nonincreasing (reported_total lss expm p H Fv1 Fv2 Fv3 dts).
+Proof. exact relaxation_monotone_total. Qed.
+Theorem C11_reported_energy_three_branch : forall (lss : M -> M) (p : @p8 R) (H Fv1 Fv2 Fv3 : M) (dt : R),
+  E_mb lss p Fv1 Fv2 Fv3 dt H - D_mb lss p Fv1 Fv2 Fv3 dt H - E_mb_eq p H = Wneq_total lss p H Fv1 Fv2 Fv3 dt.
+Proof. exact reported_total_is_energy_minus_dissipation. Qed.
+Theorem C11_reported_energy : forall (lss : M -> M) (K G Gn tau : R) (Fv : M) (dt : R) (H : M),
+  E_hv lss (K, G, Gn, tau) Fv dt H - D_hv lss (K, G, Gn, tau) Fv dt H - E_hv_eq (K, G, Gn, tau) H = Wneq_reported_hv lss (K, G, Gn, tau) Fv dt H.
+Proof. exact reported_is_energy_minus_dissipation_hv. Qed.
+
+(* ---- round 3: the coaxial update identity (Hcoax above) is a THEOREM for the spectral functions of model/M_C11s.v:
+        lss_spec eighL = TensorMath.log_sqrt_symm over its eigen-solver (same formula, tied by stream `spectral`), expm_spec eighE = the
+        spectral exponential (tied numerically to jax.scipy.linalg.expm).  A spectral function does not depend on which orthogonal
+        decomposition the solver returns (C11_spectral_function_unique), so the only premises are: F and Fv invertible, and the contract
+        eigh_ok at the three matrices the solvers are called on in the step (step_ok_*: Ce = Fe^T Fe, the increment, Ce after the update).
+        With it, relaxation over ARBITRARY step sequences holds with no hypothesis on the matrix functions beyond the solver contract
+        along the sequence (seq_ok_*), for the single-branch model and every branch of the three-branch model. *)
+Theorem C11_spectral_function_unique : forall (V V' : M) a0 a1 a2 b0 b1 b2 (f : R -> R),
+  mmul (mtr V) V = mid -> mmul V (mtr V) = mid -> mmul (mtr V') V' = mid -> mmul V' (mtr V') = mid ->
+  cj V (mdiag a0 a1 a2) = cj V' (mdiag b0 b1 b2) -> cj V (mdiag (f a0) (f a1) (f a2)) = cj V' (mdiag (f b0) (f b1) (f b2)).
+Proof. exact spectral_unique. Qed.
+Theorem C11_coaxial_update : forall (eighL eighE : M -> E3) (K G Gn tau : R) (H Fv : M) (dt : R), 0 < tau -> 0 < dt ->
+  mdet (defgrad H) <> 0 -> mdet Fv <> 0 -> step_ok_hv eighL eighE (K, G, Gn, tau) H Fv dt ->
+  Etrial (lss_spec eighL) H (state_new_hv (lss_spec eighL) (expm_spec eighE) (K, G, Gn, tau) Fv dt H)
+  = relax_hv (K, G, Gn, tau) dt (Etrial (lss_spec eighL) H Fv).
+Proof. exact coax_hv. Qed.
+Theorem C11_coaxial_update_three_branch : forall (eighL eighE : M -> E3) (n : nat) (p : @p8 R) (H Fv : M) (dt : R), 0 < taub n p -> 0 < dt ->
+  mdet (defgrad H) <> 0 -> mdet Fv <> 0 -> step_ok_b eighL eighE n p H Fv dt ->
+  Etrial_mb (lss_spec eighL) H (state_new_b n (lss_spec eighL) (expm_spec eighE) p Fv dt H) = relax_b n p dt (Etrial_mb (lss_spec eighL) H Fv).
+Proof. exact coax_b. Qed.
+Theorem C11_relaxation_step_spectral : forall (eighL eighE : M -> E3) (K G Gn tau : R) (H Fv : M) (dt dt' : R),
+  0 < tau -> 0 <= Gn -> 0 < dt -> 0 < dt' -> mdet (defgrad H) <> 0 -> mdet Fv <> 0 -> step_ok_hv eighL eighE (K, G, Gn, tau) H Fv dt ->
+  Wneq_reported_hv (lss_spec eighL) (K, G, Gn, tau) (state_new_hv (lss_spec eighL) (expm_spec eighE) (K, G, Gn, tau) Fv dt H) dt' H
+  = fac dt' tau * fac dt' tau * Wneq_reported_hv (lss_spec eighL) (K, G, Gn, tau) Fv dt H
+  /\ Wneq_reported_hv (lss_spec eighL) (K, G, Gn, tau) (state_new_hv (lss_spec eighL) (expm_spec eighE) (K, G, Gn, tau) Fv dt H) dt' H
+     <= Wneq_reported_hv (lss_spec eighL) (K, G, Gn, tau) Fv dt H.
+Proof. exact relaxation_step_spec. Qed.
+Theorem C11_relaxation_monotone_spectral : forall (eighL eighE : M -> E3) (K G Gn tau : R) (H : M) (dts : list R),
+  0 < tau -> 0 <= Gn -> mdet (defgrad H) <> 0 -> Forall (fun dt => 0 < dt) dts ->
+  forall Fv : M, mdet Fv <> 0 -> seq_ok_hv eighL eighE (K, G, Gn, tau) H Fv dts ->
+  nonincreasing (reported (lss_spec eighL) (expm_spec eighE) K G Gn tau H Fv dts).
+Proof. exact relaxation_monotone_spec. Qed.
+Theorem C11_relaxation_monotone_spectral_three_branch : forall (eighL eighE : M -> E3) (n : nat) (p : @p8 R) (H : M) (dts : list R),
+  (forall n, 0 < taub n p) -> (forall n, 0 <= Gb n p) -> mdet (defgrad H) <> 0 -> Forall (fun dt => 0 < dt) dts ->
+  forall Fv : M, mdet Fv <> 0 -> seq_ok_b eighL eighE n p H Fv dts ->
+  nonincreasing (reported_b (lss_spec eighL) (expm_spec eighE) p H n Fv dts).
+Proof. exact relaxation_monotone_b_spec. Qed.
+
 (* ---- the two limits: explicit bounds, and the epsilon statements.  W_inst = equilibrium energy + G |dev E_trial|^2 (all
         branches elastic), W_eq = equilibrium hyperelastic energy.  They hold for every state; for a virgin material
         (Fv = identity) E_trial is the logarithmic strain of the deformation itself. *)
@@ -113,9 +195,24 @@ Example C11_nonvacuous : exists (lss expm : M -> M),
        Etrial lss H (state_new_hv lss expm (K, G, Gn, tau) Fv dt H) = relax_hv (K, G, Gn, tau) dt (Etrial lss H Fv).
 Proof. exact hypotheses_satisfiable. Qed.
 
+(* non-vacuity of the eigen-solver contract: on a diagonal stretch history the solver that returns (diagonal, identity) meets it at
+   the increment, for a deformation with a non-zero increment *)
+Example C11_spectral_nonvacuous : exists (eigh : M -> E3) (H Fv : M),
+  (forall K G Gn tau dt, 0 < tau -> 0 < dt -> eigh_ok eigh (inc_hv (K, G, Gn, tau) dt (Etrial (lss_spec eigh) H Fv)))
+  /\ inc_hv (0, 0, 1, 1) 1 (Etrial (lss_spec eigh) H Fv) <> mzero.
+Proof. exact spectral_contract_satisfiable. Qed.
+
+(* non-vacuity of the solver contract along sequences: a non-trivial diagonal stretch, every sequence of positive steps *)
+Example C11_spectral_sequence_nonvacuous : exists (eigh : M -> E3) (H Fv : M), mdet (defgrad H) <> 0 /\ mdet Fv <> 0 /\ H <> mzero
+  /\ forall K G Gn tau dts, 0 < tau -> Forall (fun dt => 0 < dt) dts -> seq_ok_hv eigh eigh (K, G, Gn, tau) H Fv dts.
+Proof. exact spectral_sequence_satisfiable. Qed.
+
 Print Assumptions C11_dissipation_nonneg.
 Print Assumptions C11_dissipation_nonneg_three_branch.
 Print Assumptions C11_isochoric.
+Print Assumptions C11_isochoric_spectral.
 Print Assumptions C11_relaxation_monotone.
+Print Assumptions C11_relaxation_monotone_total.
+Print Assumptions C11_relaxation_monotone_spectral.
 Print Assumptions C11_limit_instantaneous.
 Print Assumptions C11_limit_equilibrium.
